@@ -11,7 +11,7 @@ BASELINE = ("cd /repo && /venv/bin/python -m pytest -ra -q -p no:cacheprovider -
 
 NOT_APPLICABLE = {
     "C04": "equality of value/Jacobian/metric after specialisation is numerical; the only structural candidates concern code whose effect is unreachable today",
-    "C05": "semantics preservation of a run-time graph rewrite keyed on object identity; nothing in the code's shape decides it",
+    "C05": "semantics preservation of a run-time graph rewrite keyed on object identity (pairing clause claimed, see DESIGN 9.11)",
     "C18": "distribution (mean, covariance) of drawn samples is statistical; no necessary structural clause found that is not already a run-time shape error",
     "C19": "KL value/gradient/metric equal sample averages: numerical identity over generated Hamiltonians",
 }
